@@ -35,6 +35,9 @@ var c07 struct {
 	fail      bool
 	intrinsic uint64
 	gasGiven  uint64
+	// createBumpsNonce: go-ethereum's create increments the caller's nonce before running the init code, unless it fails
+	// earlier (call depth, insufficient balance)
+	createBumpsNonce bool
 }
 
 func c07NewEVM(k *Keeper, ctx sdk.Context, msg core.Message, cfg *statedb.EVMConfig, tracer vm.EVMLogger, stateDB vm.StateDB) *vm.EVM {
@@ -61,6 +64,9 @@ func c07Call(evm *vm.EVM, caller vm.ContractRef, addr common.Address, input []by
 }
 
 func c07Create(evm *vm.EVM, caller vm.ContractRef, code []byte, gas uint64, value *big.Int) ([]byte, common.Address, uint64, error) {
+	if c07.createBumpsNonce {
+		c07.stateDB.SetNonce(caller.Address(), c07.stateDB.GetNonce(caller.Address())+1)
+	}
 	left, err := c07Run(gas)
 	return nil, common.Address{}, left, err
 }
